@@ -72,10 +72,12 @@ SPEC = {
     "nontrivial": nontrivial,
     "coverage_extra": coverage_extra,
     "rule": "sequence = reset + either (a) ops on the real historyBuffer through the hook: new(cap 0-130)/rec/recn/from/get/"
-            "resetidx/restart with injected kv failures, or (b) one leader RegionSyncer behind a real gRPC server and up to "
+            "resetidx/restart with injected kv failures, hold/recheck (a caller keeps an answer of RecordsFrom while the buffer "
+            "records past a wrap-around and looks at it again), or (b) one leader RegionSyncer behind a real gRPC server and up to "
             "3 follower RegionSyncers running the real StartSyncWithLeader loop: populate 0-320 regions, well-formed "
             "changes (leader/flow/membership/split/merge/stale) or arbitrary region reports, connect (GetRegions order "
-            "asc/desc/rot/evenodd)/check/disconnect/follower restart, or (c) the malformed stream: hand-made messages on a "
+            "asc/desc/rot/evenodd)/check/disconnect/follower restart, burst (2-5 changes notified while a live follower's "
+            "stream is busy: its Send is parked before it serialises, released 50 ms later), or (c) the malformed stream: hand-made messages on a "
             "follower's stream with missing stats, fewer leaders than regions, leader peer id 0, mismatching start index "
             "(correspondence only); non-trivial = (a) records, a wrapped or shifted "
             "window and a RecordsFrom query, (b) a connection that transported regions followed by a comparison of "
